@@ -88,12 +88,12 @@ pub fn vclass(v: &Value) -> &'static str {
     match v {
         Value::Integer(i) => if (**i as i128).abs() >= (1i128 << 53) { "huge" } else { "-" },
         Value::Float(f) => if f.abs() >= 9007199254740992.0 { "huge" } else if **f == 0.0 { "signed-zero" } else { "-" },
-        Value::List(xs) => if xs.iter().any(|x| vclass(x) == "huge") { "huge" } else { "-" },
-        Value::Struct(xs) => if xs.iter().any(|(_, x)| vclass(x) == "huge") { "huge" } else { "-" },
+        Value::List(xs) => if xs.iter().any(|x| vclass(x) == "huge") { "huge" } else if xs.iter().any(|x| vclass(x) == "signed-zero") { "signed-zero" } else { "-" },
+        Value::Struct(xs) => if xs.iter().any(|(_, x)| vclass(x) == "huge") { "huge" } else if xs.iter().any(|(_, x)| vclass(x) == "signed-zero") { "signed-zero" } else { "-" },
         Value::Optional(x) => x.as_ref().map_or("-", |x| vclass(x)),
         Value::Union(x) => vclass(&x.1),
-        Value::Set(xs) => if xs.iter().any(|x| vclass(x) == "huge") { "huge" } else { "-" },
-        Value::Array(x) => if x.0.iter().any(|x| vclass(x) == "huge") { "huge" } else { "-" },
+        Value::Set(xs) => if xs.iter().any(|x| vclass(x) == "huge") { "huge" } else if xs.iter().any(|x| vclass(x) == "signed-zero") { "signed-zero" } else { "-" },
+        Value::Array(x) => if x.0.iter().any(|x| vclass(x) == "huge") { "huge" } else if x.0.iter().any(|x| vclass(x) == "signed-zero") { "signed-zero" } else { "-" },
         _ => "-",
     }
 }
